@@ -189,7 +189,8 @@ Proof.
       rewrite run_steps_app.
       pose proof (create_steps_refines (with_st d s0) b t s1 nid) as X. cbn [d_st with_st] in X.
       rewrite X; auto. unfold run_steps. cbn [fold_left exec d_st with_st].
-      destruct (reparent (set_next s1 nid (mb_next ib)) (mb_id ib) nid); reflexivity.
+      unfold reparent_max.
+      match goal with |- context [reparent ?a ?b ?c] => destruct (reparent a b c) end; reflexivity.
     + (* RENAME: one transaction, parents included *)
       destruct (find_name s a) as [m|]; [|exact Hid].
       destruct (find_name s b); [exact Hid|].
